@@ -29,6 +29,31 @@ CLAIMED = {
                 "(modelled, tied differentially); harness. Assumes no symlinks under the roots; WSGI server/HTTP layer not modelled.",
         "technique": "Coq proof (induction over segment lists) + exhaustive request enumeration against the real app",
     },
+    "C16": {
+        "text": "Machine-checked theorems (axiom-free) about a Gallina model of escape_identifier_name and the Schema/Table constructors: "
+                "case-insensitivity of unquoted identifiers, quoted identifiers keep case and lose only quotes (each quote style), last-dot split "
+                "and part limit, idempotence on stable names, and the position theorem (every syntactic position reports the same name and a "
+                "two-statement chain is found whenever the once-normalised name is stable); refutations for quoted upper-case names (known "
+                "findings K-C16-1/2).  Tied by exhaustive spellings through the real functions and through real SQL at every position per dialect.",
+        "design_ref": "DESIGN.md section 6 C16",
+        "note": "Trusted: Coq kernel + vm_compute; hand-written models Ident/Escape.v, Ident/Positions.v (the per-position count of "
+                "normalisations is read from the code and tied differentially); ASCII identifiers only. The unguarded position statement is "
+                "false of the code (K-C16-1, K-C16-2 recorded, not repaired).",
+        "technique": "Coq proof (string induction, 256-case character sweeps) + exhaustive spelling x position correspondence",
+    },
+    "C03": {
+        "text": "Machine-checked theorems (axiom-free) about a Gallina model of SQLLineageHolder._build_digraph and the role accessors at dataset "
+                "level: for scripts without DROP/RENAME the edge set and the source/target/intermediate classification equal the property's "
+                "own definition computed from the set of statements (hence order- and repetition-invariance), DROP removes only isolated "
+                "tables and never disturbs others, a single RENAME to a fresh name puts y in x's place; refutation for chained RENAME pairs "
+                "(K-C03-1).  Tied by all histories of abstract statements built through the public holder API and by generated SQL scripts "
+                "whose per-statement holders (statement tap) are abstracted and fed to the model.",
+        "design_ref": "DESIGN.md section 6 C03",
+        "note": "Trusted: Coq kernel + vm_compute; hand-written model Holder/TableLevel.v and the harness abstraction of a holder graph "
+                "(dataset nodes, read/write/drop/rename, datasets with non-dataset neighbours). Column-level part of _build_digraph is not in "
+                "this model.",
+        "technique": "Coq proof (fold invariant over statement lists; executable spec) + exhaustive abstract histories + SQL scripts",
+    },
 }
 
 checks = []
